@@ -64,6 +64,37 @@ def run(prop, tier, seed, work):
         sid = "C08-collide-%d" % k
         scen.append({"sid": sid, "prop": prop, "vals": [colv], "tags": ["slot-collision"], "dkey": sid,
                      "steps": [{"op": "par", "collide": 8, "readers": 3, "rounds": 6, "gomaxprocs": [2, 4, 16][k % 3], "hooks": True}]})
+    # forced two-party schedules: every building / rejecting transition of spec/RegSeqMC.tla with the writer
+    # held at each registry hook of its lock section while fresh readers probe (spec/Api.tla JGated)
+    import checks_reject
+    edges = [e for e in checks_reject.regmc_edges(work, res, key="regseqmc_gated") if e["kind"] in ("built", "rejected", "hit")]
+    if quick:
+        rng.shuffle(edges)
+        edges = edges[:40]
+    res.extra["regseqmc_gated"]["transitions_replayed"] = len(edges)
+    gdefs = {}
+    for k, e in enumerate(edges):
+        gdefs.update(checks_reject.rg_graph(k))
+    U.with_defaults({k2: v2 for k2, v2 in gdefs.items() if not v2.get("invalid")})
+    defs.update(gdefs)
+    for k, e in enumerate(edges):
+        vals, steps = [], []
+
+        def call(r, k=k, vals=vals):
+            ty = r["s"].replace("_0", "_%d" % k)
+            if gdefs[ty].get("invalid"):
+                return {"op": "reject", "ty": ty, "entry": "size", "arg": "ptr" if r["byptr"] else "val", "class": "regmc-gated", "repeat": 1}
+            vals.append(U.base_value({"k": "struct", "ptr": False, "s": ty}, gdefs, 2, k))
+            return {"op": "size", "ty": ty, "v": len(vals) - 1, "byval": not r["byptr"]}
+        for r in (e["path"] if isinstance(e["path"], list) else []):
+            steps.append(call(r))
+        others = [x for x in checks_reject.RG if "Rg%s_0" % x != e["s"]]
+        rng.shuffle(others)
+        probes = [call({"s": e["s"], "byptr": True}), call({"s": e["s"], "byptr": False})] + \
+                 [call({"s": "Rg%s_0" % x, "byptr": bool(j % 2)}) for j, x in enumerate(others[:3])]
+        steps.append({"op": "gated", "writer": call({"s": e["s"], "byptr": e["byptr"]}), "probes": probes, "pause_ms": 40})
+        sid = "C08-gated-%d" % k
+        scen.append({"sid": sid, "prop": prop, "vals": vals, "steps": steps, "tags": ["gated", e["kind"]], "dkey": sid})
     sv = U.base_value({"k": "struct", "ptr": False, "s": "Steady"}, defs, 2, 1)
     for k in range(ncopies):
         n = lambda s: "%s%d" % (s, k)
